@@ -18,3 +18,498 @@ Theorem orig_refuted :
   parse_time_orig db0 "10:00:00@Etc/GMT+1" = None /\ option_map print_time (parse_time db0 "10:00:00@Etc/GMT+1") = Some "10:00:00@Etc/GMT+1" /\
   parse_dtd_orig "P1DT" = Some DAY_NS /\ parse_dtd "P1DT" = None.
 Proof. vm_compute. repeat split; reflexivity. Qed.
+
+(* ---------------- digits ---------------- *)
+Definition isdig (d : Z) : Prop := 0 <= d <= 9.
+
+Lemma digit_val_char : forall d, isdig d -> digit_val (digit_char d) = Some d.
+Proof.
+  intros d H. unfold isdig in H.
+  assert (C : d = 0 \/ d = 1 \/ d = 2 \/ d = 3 \/ d = 4 \/ d = 5 \/ d = 6 \/ d = 7 \/ d = 8 \/ d = 9) by lia.
+  repeat (destruct C as [C|C]; [subst d; reflexivity|]). subst d. reflexivity.
+Qed.
+
+Lemma digit_val_range : forall c d, digit_val c = Some d -> isdig d.
+Proof.
+  intros c d H. unfold digit_val in H.
+  destruct c as [[] [] [] [] [] [] [] []]; try discriminate; injection H as <-; unfold isdig; lia.
+Qed.
+
+Definition nodigit_head (s : string) : Prop :=
+  match s with EmptyString => True | String c _ => digit_val c = None end.
+
+Lemma span_digits_str : forall ds r, Forall isdig ds -> nodigit_head r ->
+  span_digits (str_of_digits ds ++ r) = (ds, r).
+Proof.
+  induction ds as [|d ds IH]; intros r F N.
+  - cbn. destruct r as [|c r']; [reflexivity|]. cbn in N. cbn. rewrite N. reflexivity.
+  - inversion F as [|? ? Hd Ht]; subst. cbn [str_of_digits fold_right append span_digits].
+    rewrite (digit_val_char d Hd). fold (str_of_digits ds). rewrite (IH r Ht N). reflexivity.
+Qed.
+
+Lemma num_app1 : forall ds d a, fold_left (fun a d => 10 * a + d) (app ds [d]) a = 10 * fold_left (fun a d => 10 * a + d) ds a + d.
+Proof. intros ds d a. rewrite fold_left_app. reflexivity. Qed.
+
+Lemma fold_num_acc : forall ds a, fold_left (fun a d => 10 * a + d) ds a = a * 10 ^ Z.of_nat (List.length ds) + num ds.
+Proof.
+  unfold num. induction ds as [|d ds IH]; intros a.
+  - cbn. lia.
+  - cbn [fold_left List.length]. rewrite IH. rewrite (IH (10 * 0 + d)).
+    rewrite Nat2Z.inj_succ, Z.pow_succ_r by lia. ring.
+Qed.
+
+Lemma num_cons : forall d ds, num (d :: ds) = d * 10 ^ Z.of_nat (List.length ds) + num ds.
+Proof. intros. unfold num at 1. cbn [fold_left]. rewrite fold_num_acc. lia. Qed.
+
+(* the key fact about the digit generator *)
+Lemma digits_fuel_spec : forall f n acc, 0 <= n < 2 ^ Z.of_nat f -> (0 < n \/ acc = [] /\ (0 < f)%nat) ->
+  exists ds, digits_fuel f n acc = app ds acc /\ Forall isdig ds /\ num ds = n /\
+             (0 < n -> exists d r, ds = d :: r /\ 0 < d /\ 10 ^ Z.of_nat (List.length r) <= n < 10 ^ Z.of_nat (S (List.length r))) /\
+             (n = 0 -> ds = [0]).
+Proof.
+  induction f as [|f IH]; intros n acc Hn Hpos.
+  - cbn in Hn. assert (n = 0) by lia. subst n. destruct Hpos as [H|[_ H]]; lia.
+  - cbn [digits_fuel]. destruct (Z.ltb_spec n 10) as [L|L].
+    + exists [n mod 10]. rewrite Z.mod_small by lia. split; [reflexivity|]. split; [constructor; [unfold isdig; lia|constructor]|].
+      split; [reflexivity|]. split.
+      * intros P. exists n, []. split; [reflexivity|]. cbn. lia.
+      * intros ->. reflexivity.
+    + assert (Hq : 0 <= n / 10 < 2 ^ Z.of_nat f).
+      { rewrite Nat2Z.inj_succ, Z.pow_succ_r in Hn by lia. Z.div_mod_to_equations. lia. }
+      destruct (IH (n / 10) (n mod 10 :: acc) Hq) as [ds [E [F [N [P _]]]]].
+      { left. Z.div_mod_to_equations. lia. }
+      exists (app ds [n mod 10]). split; [rewrite E, <- app_assoc; reflexivity|].
+      split; [apply Forall_app; split; [exact F|constructor; [unfold isdig; Z.div_mod_to_equations; lia|constructor]]|].
+      split; [unfold num; rewrite num_app1; fold (num ds); rewrite N; Z.div_mod_to_equations; lia|].
+      split; [|intros ->; lia].
+      intros _. destruct P as [d [r [Eds [Hd B]]]]; [Z.div_mod_to_equations; lia|].
+      exists d, (app r [n mod 10]). subst ds. split; [reflexivity|]. split; [exact Hd|].
+      rewrite app_length. cbn [List.length]. replace (List.length r + 1)%nat with (S (List.length r)) by lia.
+      rewrite !Nat2Z.inj_succ, !Z.pow_succ_r in * by lia. Z.div_mod_to_equations. lia.
+Qed.
+
+Lemma digits_spec : forall n, 0 <= n ->
+  Forall isdig (digits n) /\ num (digits n) = n /\
+  (0 < n -> exists d r, digits n = d :: r /\ 0 < d /\ 10 ^ Z.of_nat (List.length r) <= n < 10 ^ Z.of_nat (S (List.length r))) /\
+  (n = 0 -> digits n = [0]).
+Proof.
+  intros n Hn. unfold digits.
+  destruct (digits_fuel_spec (S (Z.to_nat (Z.log2 n))) n []) as [ds [E [F [N [P Z0]]]]].
+  - split; [lia|]. rewrite Nat2Z.inj_succ, Z2Nat.id by apply Z.log2_nonneg.
+    destruct (Z.eq_dec n 0) as [->|Hne]; [cbn; lia|]. apply Z.log2_spec. lia.
+  - destruct (Z.eq_dec n 0); [right; split; [reflexivity|lia] | left; lia].
+  - rewrite app_nil_r in E. rewrite E. auto.
+Qed.
+
+Lemma span_digits_dec : forall n r, 0 <= n -> nodigit_head r -> span_digits (dec n ++ r) = (digits n, r).
+Proof. intros n r Hn N. unfold dec. apply span_digits_str; [apply digits_spec; exact Hn | exact N]. Qed.
+
+Lemma digits_nonempty : forall n, 0 <= n -> exists d r, digits n = d :: r.
+Proof.
+  intros n Hn. destruct (digits_spec n Hn) as [_ [_ [P Z0]]].
+  destruct (Z.eq_dec n 0) as [->|Hne]; [exists 0, []; apply Z0; reflexivity|].
+  destruct P as [d [r [E _]]]; [lia|]. exists d, r. exact E.
+Qed.
+
+(* ---------------- years-and-months durations: print then parse is the identity, for every total ---------------- *)
+Lemma p_comp_dec : forall u n r, 0 <= n -> digit_val u = None ->
+  p_comp u (dec n ++ String u r) = (Some (Some n), r).
+Proof.
+  intros u n r Hn Hu. unfold p_comp. rewrite span_digits_dec by (try exact Hn; exact Hu).
+  destruct (digits_nonempty n Hn) as [d [t E]]. rewrite E. rewrite Ascii.eqb_refl. rewrite <- E.
+  destruct (digits_spec n Hn) as [_ [N _]]. rewrite N. reflexivity.
+Qed.
+
+Lemma p_comp_absent : forall u s, (forall c r, s = String c r -> digit_val c = None) -> p_comp u s = (None, s).
+Proof.
+  intros u s H. unfold p_comp. destruct s as [|c r]; [reflexivity|].
+  cbn [span_digits]. rewrite (H c r eq_refl). reflexivity.
+Qed.
+
+Lemma append_assoc : forall a b c : string, (a ++ b) ++ c = a ++ (b ++ c).
+Proof. induction a as [|x a IH]; intros b c; cbn; [reflexivity|rewrite IH; reflexivity]. Qed.
+
+Theorem print_parse_ymd : forall n, Z.abs n / 12 <= u64_max -> parse_ymd (print_ymd n) = Some n.
+Proof.
+  intros n B. unfold print_ymd.
+  assert (Ha : 0 <= Z.abs n) by lia.
+  assert (Hy : 0 <= Z.abs n / 12) by (Z.div_mod_to_equations; lia).
+  assert (Hm : 0 <= Z.abs n mod 12 < 12) by (Z.div_mod_to_equations; lia).
+  assert (Hm64 : Z.abs n mod 12 <= u64_max) by (unfold u64_max; lia).
+  assert (E : Z.abs n = 12 * (Z.abs n / 12) + Z.abs n mod 12) by (Z.div_mod_to_equations; lia).
+  destruct (Z.ltb_spec 0 (Z.abs n / 12)) as [Py|Py]; destruct (Z.ltb_spec 0 (Z.abs n mod 12)) as [Pm|Pm].
+  - (* years and months *)
+    destruct (Z.ltb_spec n 0) as [Neg|Pos]; cbn [append]; unfold parse_ymd;
+      rewrite ?append_assoc; rewrite p_comp_dec by (try lia; reflexivity);
+      rewrite p_comp_dec by (try lia; reflexivity); cbn [String.eqb comp_present comp_fits comp_val andb orb];
+      replace (Z.abs n / 12 <=? u64_max) with true by (symmetry; apply Z.leb_le; lia);
+      replace (Z.abs n mod 12 <=? u64_max) with true by (symmetry; apply Z.leb_le; lia); cbn [andb orb]; f_equal; lia.
+  - (* years only *)
+    destruct (Z.ltb_spec n 0) as [Neg|Pos]; cbn [append]; unfold parse_ymd;
+      rewrite p_comp_dec by (try lia; reflexivity); rewrite p_comp_absent by (intros; discriminate);
+      cbn [String.eqb comp_present comp_fits comp_val andb orb];
+      replace (Z.abs n / 12 <=? u64_max) with true by (symmetry; apply Z.leb_le; lia); cbn [andb orb]; f_equal; lia.
+  - (* months only: the year pattern does not match *)
+    assert (NoY : forall r, p_comp "Y" (dec (Z.abs n mod 12) ++ String "M" r) = (None, dec (Z.abs n mod 12) ++ String "M" r)).
+    { intros r. unfold p_comp. rewrite span_digits_dec by (try lia; reflexivity).
+      destruct (digits_nonempty (Z.abs n mod 12)) as [d [t Ed]]; [lia|]. rewrite Ed. reflexivity. }
+    destruct (Z.ltb_spec n 0) as [Neg|Pos]; cbn [append]; unfold parse_ymd;
+      rewrite NoY; rewrite p_comp_dec by (try lia; reflexivity);
+      cbn [String.eqb comp_present comp_fits comp_val andb orb];
+      replace (Z.abs n mod 12 <=? u64_max) with true by (symmetry; apply Z.leb_le; lia); cbn [andb orb]; f_equal; lia.
+  - (* zero *)
+    assert (n = 0) by lia. subst n. reflexivity.
+Qed.
+
+(* normal form of what is printed *)
+Theorem ymd_normal_form : forall n, 0 <= Z.abs n mod 12 < 12 /\ print_ymd 14 = "P1Y2M" /\ print_ymd (-14) = "-P1Y2M" /\
+  option_map print_ymd (parse_ymd "P14M") = Some "P1Y2M".
+Proof. intros n. split; [Z.div_mod_to_equations; lia|]. vm_compute. repeat split; reflexivity. Qed.
+
+(* ---------------- dates: print then parse is the identity for every FEEL date ---------------- *)
+Definition pad4_digits (a : Z) : list Z := app (repeat 0 (4 - List.length (digits a))) (digits a).
+Definition isdigb (d : Z) : bool := (0 <=? d) && (d <=? 9).
+
+Lemma pad4_small_sweep :
+  forallb (fun a => year_digits_ok (pad4_digits a) && (num (pad4_digits a) =? a) && forallb isdigb (pad4_digits a)) (zrange 0 1000) = true.
+Proof. vm_compute. reflexivity. Qed.
+
+Lemma forallb_isdig : forall l, forallb isdigb l = true -> Forall isdig l.
+Proof.
+  intros l H. apply Forall_forall. intros x Hx. rewrite forallb_forall in H. specialize (H x Hx).
+  unfold isdigb in H. apply andb_true_iff in H. rewrite !Z.leb_le in H. exact H.
+Qed.
+
+Lemma pad4_digits_spec : forall a, 0 <= a <= 999999999 ->
+  year_digits_ok (pad4_digits a) = true /\ num (pad4_digits a) = a /\ Forall isdig (pad4_digits a).
+Proof.
+  intros a Ha. destruct (Z_lt_ge_dec a 1000) as [S|L].
+  - pose proof pad4_small_sweep as W. rewrite forallb_forall in W.
+    specialize (W a). rewrite zrange_In in W. specialize (W ltac:(cbn; lia)).
+    apply andb_true_iff in W. destruct W as [W W3]. apply andb_true_iff in W. destruct W as [W1 W2].
+    apply Z.eqb_eq in W2. split; [exact W1|]. split; [exact W2|]. apply forallb_isdig. exact W3.
+  - destruct (digits_spec a ltac:(lia)) as [F [N [P _]]]. destruct P as [d [r [E [Hd [B1 B2]]]]]; [lia|].
+    assert (L4 : (3 <= List.length r)%nat).
+    { destruct (le_lt_dec 3 (List.length r)) as [K|K]; [exact K|exfalso].
+      assert (10 ^ Z.of_nat (S (List.length r)) <= 10 ^ 3) by (apply Z.pow_le_mono_r; lia). lia. }
+    assert (L9 : (List.length r <= 8)%nat).
+    { destruct (le_lt_dec (List.length r) 8) as [K|K]; [exact K|exfalso].
+      assert (10 ^ 9 <= 10 ^ Z.of_nat (List.length r)) by (apply Z.pow_le_mono_r; lia). lia. }
+    unfold pad4_digits. rewrite E. cbn [List.length].
+    replace (4 - S (List.length r))%nat with 0%nat by lia. cbn [repeat app].
+    split; [|split; [rewrite <- E; exact N | rewrite <- E; exact F]].
+    unfold year_digits_ok. replace (d =? 0) with false by (symmetry; apply Z.eqb_neq; lia).
+    cbn [List.length]. apply andb_true_iff. rewrite !Z.leb_le. lia.
+Qed.
+
+Lemma two_pad2 : forall n r, 0 <= n <= 99 -> two (pad2 n ++ r) = Some (n, r).
+Proof.
+  intros n r H. unfold pad2. cbn [append two].
+  rewrite (digit_val_char (n / 10)) by (unfold isdig; Z.div_mod_to_equations; lia).
+  rewrite (digit_val_char (n mod 10)) by (unfold isdig; Z.div_mod_to_equations; lia).
+  f_equal. f_equal. Z.div_mod_to_equations. lia.
+Qed.
+
+Lemma str_of_digits_head : forall ds r, Forall isdig ds -> ds <> [] ->
+  exists c t, str_of_digits ds ++ r = String c t /\ c <> "-"%char.
+Proof.
+  intros ds r F N. destruct ds as [|d ds]; [congruence|]. inversion F as [|? ? Hd _]; subst.
+  exists (digit_char d), (str_of_digits ds ++ r). split; [reflexivity|].
+  intros C. pose proof (digit_val_char d Hd) as V. rewrite C in V. discriminate.
+Qed.
+
+Lemma year_ok_nonempty : forall ds, year_digits_ok ds = true -> ds <> [].
+Proof. intros [|d ds] H; [discriminate|congruence]. Qed.
+
+Definition sgn (neg : bool) (x : string) : string := if neg then String "-"%char x else x.
+Definition date_text (a m d : Z) (rest : string) : string :=
+  pad4 a ++ String "-"%char (pad2 m ++ String "-"%char (pad2 d ++ rest)).
+
+Lemma p_date_print : forall (neg : bool) a m d rest, 0 <= a <= 999999999 -> 0 <= m <= 99 -> 0 <= d <= 99 ->
+  p_date year_digits_ok (sgn neg (date_text a m d rest)) = Some ((if neg then - a else a), m, d, rest).
+Proof.
+  intros neg a m d rest Ha Hm Hd. destruct (pad4_digits_spec a Ha) as [Y [N F]].
+  assert (P4 : pad4 a = str_of_digits (pad4_digits a)) by reflexivity.
+  assert (Sp : span_digits (date_text a m d rest) = (pad4_digits a, String "-"%char (pad2 m ++ String "-"%char (pad2 d ++ rest)))).
+  { unfold date_text. rewrite P4. apply span_digits_str; [exact F | reflexivity]. }
+  unfold p_date. destruct neg; unfold sgn.
+  - rewrite Sp, Y. rewrite two_pad2 by exact Hm. rewrite two_pad2 by exact Hd. rewrite N. reflexivity.
+  - destruct (str_of_digits_head (pad4_digits a) (String "-"%char (pad2 m ++ String "-"%char (pad2 d ++ rest))) F (year_ok_nonempty _ Y)) as [c [t [E Nc]]].
+    rewrite <- P4 in E. fold (date_text a m d rest) in E. rewrite E.
+    assert (M : match String c t with String "-"%char r => (true, r) | _ => (false, String c t) end = (false, String c t)).
+    { destruct c as [[] [] [] [] [] [] [] []]; try reflexivity. congruence. }
+    rewrite M. rewrite <- E, Sp, Y. rewrite two_pad2 by exact Hm. rewrite two_pad2 by exact Hd. rewrite N. reflexivity.
+Qed.
+
+Lemma print_date_text : forall y m d, print_date (y, m, d) = sgn (y <? 0) (date_text (Z.abs y) m d "").
+Proof.
+  intros y m d. unfold print_date, sgn, date_text.
+  replace (pad2 d ++ "") with (pad2 d) by reflexivity. destruct (y <? 0); reflexivity.
+Qed.
+
+Theorem print_parse_date : forall y m d, feel_date y m d = true -> parse_date (print_date (y, m, d)) = Some (y, m, d).
+Proof.
+  intros y m d H. pose proof H as H0. unfold feel_date in H. apply andb_true_iff in H. destruct H as [Hy Hv].
+  unfold feel_year in Hy. apply andb_true_iff in Hy. rewrite !Z.leb_le in Hy.
+  apply valid_iff in Hv. destruct Hv as [Hm Hd]. pose proof (last_day_range y m Hm).
+  unfold parse_date, parse_date_gen. rewrite print_date_text.
+  rewrite (p_date_print (y <? 0) (Z.abs y) m d "") by lia.
+  replace (if y <? 0 then - Z.abs y else Z.abs y) with y by (destruct (Z.ltb_spec y 0); lia).
+  rewrite is_valid_date_spec, H0. reflexivity.
+Qed.
+
+(* a parsed date is a calendar date; what it denotes is what is written *)
+Theorem parse_date_valid : forall s y m d, parse_date s = Some (y, m, d) -> feel_date y m d = true.
+Proof.
+  intros s y m d H. unfold parse_date, parse_date_gen in H.
+  destruct (p_date year_digits_ok s) as [[[[y' m'] d'] r]|]; [|discriminate].
+  destruct r; [|discriminate]. destruct (is_valid_date y' m' d') eqn:V; [|discriminate].
+  injection H as <- <- <-. rewrite <- is_valid_date_spec. exact V.
+Qed.
+
+(* ---------------- zones: every offset -14:59:59 .. +14:59:59 (finite: 107998 values), Z, local, named ---------------- *)
+Definition nodb (_ : string) : bool := false.
+
+Definition offset_check (o : Z) : bool :=
+  if o =? 0 then true else
+  match p_zone nodb zone_char lt60 (print_zone (ZOffset o)) with
+  | Some (ZOffset o') => o' =? o
+  | _ => false
+  end.
+
+Lemma offset_sweep : forallb offset_check (zrange (-53999) (Z.to_nat 107999)) = true.
+Proof. vm_compute. reflexivity. Qed.
+
+Lemma p_zone_db_irrelevant : forall db zc ms s, (forall r, s <> String "@"%char r) ->
+  p_zone db zc ms s = p_zone nodb zc ms s.
+Proof.
+  intros db zc ms s H. unfold p_zone. destruct s as [|c r]; [reflexivity|].
+  destruct ((c =? "z")%char || (c =? "Z")%char); [reflexivity|].
+  destruct (Ascii.eqb_spec c "@"%char) as [->|N]; [exfalso; apply (H r); reflexivity | reflexivity].
+Qed.
+
+Lemma print_offset_head : forall o r, print_zone (ZOffset o) <> String "@"%char r.
+Proof. intros o r. unfold print_zone. destruct (o <? 0); discriminate. Qed.
+
+Theorem print_parse_zone_offset : forall db o, -53999 <= o <= 53999 -> o <> 0 ->
+  parse_zone db (print_zone (ZOffset o)) = Some (ZOffset o).
+Proof.
+  intros db o R N. unfold parse_zone. rewrite p_zone_db_irrelevant by (apply print_offset_head).
+  pose proof offset_sweep as W. rewrite forallb_forall in W. specialize (W o).
+  rewrite zrange_In in W. assert (I : -53999 <= o < -53999 + Z.of_nat (Z.to_nat 107999)) by (rewrite Z2Nat.id; lia).
+  specialize (W I). unfold offset_check in W.
+  replace (o =? 0) with false in W by (symmetry; apply Z.eqb_neq; exact N).
+  destruct (p_zone nodb zone_char lt60 (print_zone (ZOffset o))) as [[| |o'|]|]; try discriminate.
+  apply Z.eqb_eq in W. subst o'. reflexivity.
+Qed.
+
+Theorem print_parse_zone_other : forall db id, db id = true -> id <> "" -> all_chars zone_char id = true ->
+  parse_zone db (print_zone ZUtc) = Some ZUtc /\ parse_zone db (print_zone ZLocal) = Some ZLocal /\
+  parse_zone db (print_zone (ZNamed id)) = Some (ZNamed id).
+Proof.
+  intros db id D N C. split; [reflexivity|]. split; [reflexivity|].
+  unfold parse_zone, print_zone, p_zone. cbn [append]. cbn [Ascii.eqb Bool.eqb orb].
+  destruct (String.eqb_spec id "") as [E|_]; [congruence|]. cbn [negb andb]. rewrite C, D. reflexivity.
+Qed.
+
+Lemma two_range : forall s n r, two s = Some (n, r) -> 0 <= n <= 99.
+Proof.
+  intros s n r T. unfold two in T. destruct s as [|a [|b r']]; try discriminate.
+  destruct (digit_val a) as [x|] eqn:Da; [|discriminate]. destruct (digit_val b) as [y|] eqn:Db; [|discriminate].
+  replace n with (10 * x + y) by congruence.
+  apply digit_val_range in Da. apply digit_val_range in Db. unfold isdig in *. lia.
+Qed.
+
+(* what a parsed zone can be: an offset is never 0, at most 14:59:59 in magnitude *)
+Theorem parse_zone_range : forall db s o, parse_zone db s = Some (ZOffset o) -> o <> 0 /\ -53999 <= o <= 53999.
+Proof.
+  intros db s o H. unfold parse_zone, p_zone in H. destruct s as [|c r]; [discriminate|].
+  destruct ((c =? "z")%char || (c =? "Z")%char); [destruct (String.eqb r ""); discriminate|].
+  destruct (c =? "@")%char.
+  { destruct (negb (String.eqb r "") && all_chars zone_char r); [destruct (db r)|]; discriminate. }
+  destruct ((c =? "+")%char || (c =? "-")%char); [|discriminate].
+  destruct (two r) as [[hh r1]|] eqn:T1; [|discriminate].
+  pose proof (two_range _ _ _ T1) as Hh.
+  destruct r1 as [|c1 r2]; [discriminate|].
+  destruct c1 as [[] [] [] [] [] [] [] []]; try discriminate.
+  destruct (two r2) as [[mm r3]|] eqn:T2; [|discriminate].
+  pose proof (two_range _ _ _ T2) as Hm.
+  assert (G : forall ss, 0 <= ss ->
+    (if (14 <? hh) || negb (lt60 mm) || negb (lt60 ss) then None
+     else Some (zone_new (if (c =? "-")%char then - (3600 * hh + 60 * mm + ss) else 3600 * hh + 60 * mm + ss))) = Some (ZOffset o) ->
+    o <> 0 /\ -53999 <= o <= 53999).
+  { intros ss Hs G. unfold lt60 in G.
+    destruct (Z.ltb_spec 14 hh); [discriminate|]. destruct (Z.ltb_spec mm 60); [|discriminate]. destruct (Z.ltb_spec ss 60); [|discriminate].
+    cbn [negb orb] in G. unfold zone_new in G.
+    destruct (c =? "-")%char.
+    - destruct (Z.eqb_spec (- (3600 * hh + 60 * mm + ss)) 0) as [E0|E0]; [discriminate|]. assert (o = - (3600 * hh + 60 * mm + ss)) by congruence. lia.
+    - destruct (Z.eqb_spec (3600 * hh + 60 * mm + ss) 0) as [E0|E0]; [discriminate|]. assert (o = 3600 * hh + 60 * mm + ss) by congruence. lia. }
+  destruct r3 as [|c3 r4]; [apply (G 0); [lia|exact H]|].
+  destruct c3 as [[] [] [] [] [] [] [] []]; try discriminate.
+  destruct (two r4) as [[ss r5]|] eqn:T3; [|discriminate].
+  destruct r5; [|discriminate].
+  pose proof (two_range _ _ _ T3) as Hs.
+  apply (G ss ltac:(lia)). exact H.
+Qed.
+
+(* ---------------- times with whole seconds: print then parse is the identity ---------------- *)
+Definition zone_ok (db : string -> bool) (z : zone) : Prop :=
+  match z with
+  | ZUtc | ZLocal => True
+  | ZOffset o => -53999 <= o <= 53999 /\ o <> 0
+  | ZNamed id => db id = true /\ id <> "" /\ all_chars zone_char id = true
+  end.
+
+Lemma print_parse_zone : forall db z, zone_ok db z -> parse_zone db (print_zone z) = Some z.
+Proof.
+  intros db z H. destruct z as [| |o|id]; cbn [zone_ok] in H.
+  - reflexivity.
+  - reflexivity.
+  - apply print_parse_zone_offset; tauto.
+  - destruct H as [D [N C]]. apply (print_parse_zone_other db id D N C).
+Qed.
+
+Lemma zone_text_not_dot : forall z, print_zone z = "" \/ exists c r, print_zone z = String c r /\ c <> "."%char.
+Proof.
+  intros [| |o|id].
+  - right. exists "Z"%char, "". split; [reflexivity|discriminate].
+  - left. reflexivity.
+  - right. unfold print_zone. destruct (o <? 0); eexists; eexists; (split; [reflexivity|discriminate]).
+  - right. exists "@"%char, id. split; [reflexivity|discriminate].
+Qed.
+
+Definition time_text (h mi s : Z) (rest : string) : string :=
+  pad2 h ++ String ":"%char (pad2 mi ++ String ":"%char (pad2 s ++ rest)).
+
+Lemma p_time_whole : forall pz h mi s z, 0 <= h < 24 -> 0 <= mi < 60 -> 0 <= s < 60 -> pz (print_zone z) = Some z ->
+  p_time pz (time_text h mi s (print_zone z)) = Some {| t_h := h; t_mi := mi; t_s := s; t_ns := 0; t_zone := z |}.
+Proof.
+  intros pz h mi s z Hh Hm Hs Z. unfold p_time, time_text.
+  rewrite two_pad2 by lia. rewrite two_pad2 by lia. rewrite two_pad2 by lia.
+  assert (V : is_valid_time h mi s = true).
+  { unfold is_valid_time. rewrite !andb_true_iff, !Z.ltb_lt. lia. }
+  destruct (zone_text_not_dot z) as [E|[c [r [E N]]]].
+  - rewrite E. rewrite <- E, Z, V. reflexivity.
+  - rewrite E. destruct c as [[] [] [] [] [] [] [] []]; try (rewrite <- E, Z, V; reflexivity). congruence.
+Qed.
+
+Theorem print_parse_time_whole : forall db t, t_ns t = 0 -> 0 <= t_h t < 24 -> 0 <= t_mi t < 60 -> 0 <= t_s t < 60 ->
+  zone_ok db (t_zone t) -> parse_time db (print_time t) = Some t.
+Proof.
+  intros db [h mi s ns z] Hn Hh Hm Hs Hz. cbn in Hn, Hh, Hm, Hs, Hz. subst ns.
+  unfold parse_time. rewrite <- (p_time_whole (parse_zone db) h mi s z Hh Hm Hs (print_parse_zone db z Hz)).
+  reflexivity.
+Qed.
+
+(* a parsed time has in-range components (hour 24, minute or second 60 and above never parse) *)
+Theorem parse_time_valid : forall db s t, parse_time db s = Some t ->
+  t_h t < 24 /\ t_mi t < 60 /\ t_s t < 60 /\ (forall o, t_zone t = ZOffset o -> o <> 0 /\ -53999 <= o <= 53999).
+Proof.
+  intros db s t H. unfold parse_time, p_time in H.
+  destruct (two s) as [[h r1]|]; [|discriminate]. destruct r1 as [|c1 s1]; [discriminate|].
+  destruct c1 as [[] [] [] [] [] [] [] []]; try discriminate.
+  destruct (two s1) as [[mi r2]|]; [|discriminate]. destruct r2 as [|c2 s2]; [discriminate|].
+  destruct c2 as [[] [] [] [] [] [] [] []]; try discriminate.
+  destruct (two s2) as [[sec s3]|]; [|discriminate].
+  assert (G : forall ns rest,
+    match parse_zone db rest with
+    | Some z => if is_valid_time h mi sec then Some {| t_h := h; t_mi := mi; t_s := sec; t_ns := ns; t_zone := z |} else None
+    | None => None
+    end = Some t ->
+    t_h t < 24 /\ t_mi t < 60 /\ t_s t < 60 /\ (forall o, t_zone t = ZOffset o -> o <> 0 /\ -53999 <= o <= 53999)).
+  { intros ns rest G. destruct (parse_zone db rest) as [z|] eqn:Z; [|discriminate].
+    destruct (is_valid_time h mi sec) eqn:V; [|discriminate]. injection G as <-. cbn.
+    unfold is_valid_time in V. rewrite !andb_true_iff, !Z.ltb_lt in V.
+    split; [tauto|]. split; [tauto|]. split; [tauto|]. intros o' E. apply (parse_zone_range db rest o'). rewrite Z, E. reflexivity. }
+  destruct s3 as [|c3 s4]; [exact (G 0 "" H)|].
+  destruct c3 as [[] [] [] [] [] [] [] []];
+    try (match type of H with context [parse_zone db ?r] => exact (G 0 r H) end).
+  destruct (span_digits s4) as [ds s5]. destruct ds; [discriminate|].
+  match type of H with context [parse_zone db ?r] => exact (G _ r H) end.
+Qed.
+
+(* ---------------- finite witness sets for the parts without a general proof ---------------- *)
+Definition dtd_grid : list Z :=
+  flat_map (fun sg => flat_map (fun d => flat_map (fun h => flat_map (fun mi => flat_map (fun s => map (fun f =>
+    sg * (d * DAY_NS + h * HOUR_NS + mi * MIN_NS + s * NS + f)) [0; 1; 500000000; 999999999; 123456780; 509083000])
+    [0; 1; 59]) [0; 1; 59]) [0; 1; 23]) [0; 1; 400; 18446744073709551615]) [1; -1].
+
+Definition opt_Z_eqb (a : option Z) (b : Z) : bool := match a with Some x => x =? b | None => false end.
+
+Lemma dtd_grid_roundtrip : forallb (fun n => opt_Z_eqb (parse_dtd (print_dtd n)) n) dtd_grid = true.
+Proof. vm_compute. reflexivity. Qed.
+
+Theorem print_parse_dtd_grid : forall n, In n dtd_grid -> parse_dtd (print_dtd n) = Some n.
+Proof.
+  intros n H. pose proof dtd_grid_roundtrip as W. rewrite forallb_forall in W. specialize (W n H).
+  unfold opt_Z_eqb in W. destruct (parse_dtd (print_dtd n)); [apply Z.eqb_eq in W; congruence|discriminate].
+Qed.
+
+Definition ns_grid : list Z := [1; 9; 10; 100; 509083000; 500000000; 999999999; 123456789; 120000000; 1000; 999999990; 57].
+Definition zone_grid : list zone := [ZUtc; ZLocal; ZOffset (-1800); ZOffset 53999; ZOffset (-53999); ZOffset 19800; ZOffset 1; ZNamed "Europe/Warsaw"; ZNamed "Etc/GMT+1"].
+Definition time_grid : list time :=
+  flat_map (fun ns => flat_map (fun z => map (fun hms => {| t_h := fst (fst hms); t_mi := snd (fst hms); t_s := snd hms; t_ns := ns; t_zone := z |})
+    [(0, 0, 0); (23, 59, 59); (10, 20, 30)]) zone_grid) ns_grid.
+
+Definition zone_eqb (a b : zone) : bool :=
+  match a, b with
+  | ZUtc, ZUtc | ZLocal, ZLocal => true
+  | ZOffset x, ZOffset y => x =? y
+  | ZNamed x, ZNamed y => String.eqb x y
+  | _, _ => false
+  end.
+Definition time_eqb (a b : time) : bool :=
+  (t_h a =? t_h b) && (t_mi a =? t_mi b) && (t_s a =? t_s b) && (t_ns a =? t_ns b) && zone_eqb (t_zone a) (t_zone b).
+
+Lemma time_eqb_eq : forall a b, time_eqb a b = true -> a = b.
+Proof.
+  intros [h1 m1 s1 n1 z1] [h2 m2 s2 n2 z2] H. unfold time_eqb in H. cbn in H.
+  rewrite !andb_true_iff, !Z.eqb_eq in H. destruct H as [[[[-> ->] ->] ->] Z]. f_equal.
+  destruct z1, z2; cbn in Z; try discriminate; try reflexivity.
+  - apply Z.eqb_eq in Z. congruence.
+  - apply String.eqb_eq in Z. congruence.
+Qed.
+
+Lemma time_grid_roundtrip :
+  forallb (fun t => match parse_time db0 (print_time t) with Some t' => time_eqb t' t | None => false end) time_grid = true.
+Proof. vm_compute. reflexivity. Qed.
+
+Theorem print_parse_time_grid : forall t, In t time_grid -> parse_time db0 (print_time t) = Some t.
+Proof.
+  intros t H. pose proof time_grid_roundtrip as W. rewrite forallb_forall in W. specialize (W t H).
+  destruct (parse_time db0 (print_time t)) as [t'|]; [apply time_eqb_eq in W; congruence|discriminate].
+Qed.
+
+Definition date_grid : list date := [(2021, 2, 28); (-5, 1, 1); (0, 1, 1); (999, 12, 31); (999999999, 12, 31); (-999999999, 1, 1); (2024, 2, 29)].
+
+Lemma datetime_grid_roundtrip :
+  forallb (fun d => forallb (fun t =>
+    match parse_datetime db0 (print_datetime (d, t)) with Some (d', t') => date_eqb d' d && time_eqb t' t | None => false end) time_grid) date_grid = true.
+Proof. vm_compute. reflexivity. Qed.
+
+Theorem print_parse_datetime_grid : forall d t, In d date_grid -> In t time_grid ->
+  parse_datetime db0 (print_datetime (d, t)) = Some (d, t).
+Proof.
+  intros d t Hd Ht. pose proof datetime_grid_roundtrip as W. rewrite forallb_forall in W. specialize (W d Hd).
+  rewrite forallb_forall in W. specialize (W t Ht).
+  destruct (parse_datetime db0 (print_datetime (d, t))) as [[d' t']|]; [|discriminate].
+  apply andb_true_iff in W. destruct W as [W1 W2]. apply time_eqb_eq in W2. apply (proj1 (date_eqb_eq d' d)) in W1. rewrite W1, W2. reflexivity.
+Qed.
+
+(* printed days-and-time durations are in normal form *)
+Theorem dtd_normal_form : forall n,
+  0 <= dtd_hours n < 24 /\ 0 <= dtd_minutes n < 60 /\ 0 <= dtd_seconds n < 60 /\ 0 <= dtd_subsec n < NS /\
+  option_map print_dtd (parse_dtd "PT36H") = Some "P1DT12H" /\ option_map print_dtd (parse_dtd "-PT90M") = Some "-PT1H30M" /\
+  option_map print_dtd (parse_dtd "PT86400S") = Some "P1D".
+Proof.
+  intros n. destruct (dtd_components n) as [_ [_ [A [B [C D]]]]].
+  split; [exact A|]. split; [exact B|]. split; [exact C|]. split; [exact D|]. vm_compute. repeat split; reflexivity.
+Qed.
+
+Example c14_nonvacuous :
+  parse_date "2024-02-29" = Some (2024, 2, 29) /\ parse_date "2023-02-29" = None /\
+  option_map print_time (parse_time db0 "10:00:00.509083-00:30") = Some "10:00:00.509083-00:30" /\
+  parse_time db0 "24:00:00" = None /\ parse_time db0 "10:00:60" = None /\ parse_time db0 "10:00:00+15:00" = None /\
+  parse_duration "P14M" = Some (DYm 14) /\ parse_duration "PT36H" = Some (DDt 129600000000000) /\ parse_duration "P1Y2D" = None /\
+  option_map print_datetime (bif_date_and_time db0 "-0005-01-01T00:00:00.000000001@Europe/Warsaw") = Some "-0005-01-01T00:00:00.000000001@Europe/Warsaw".
+Proof. vm_compute. repeat split; reflexivity. Qed.
